@@ -8,6 +8,7 @@
 set -u
 PATCH=$(readlink -f "$1"); shift
 V=$(cd "$(dirname "$0")/.." && pwd)
+C=${VERIF_SNAP:-$V}   # (a frozen copy of /verif to run from, while /verif itself is being edited)
 ids="$*"
 if [ -z "$ids" ]; then
 	f=$(grep '^+++ b/' "$PATCH" | sed 's#^+++ b/##')
@@ -15,8 +16,8 @@ if [ -z "$ids" ]; then
 	for p in $f; do
 		case $p in
 		ociregistry/ocimem/*) s="$s C01 C02 C03 C04 C05 C06 C08 C14 C15" ;;
-		ociregistry/ociclient/*) s="$s C01 C03 C04 C05 C07 C18" ;;
-		ociregistry/ociserver/*) s="$s C01 C03 C04 C05 C06 C07" ;;
+		ociregistry/ociclient/*) s="$s C01 C03 C04 C05 C07 C08 C18" ;;
+		ociregistry/ociserver/*) s="$s C01 C03 C04 C05 C06 C07 C08" ;;
 		ociregistry/ociauth/*) s="$s C10 C11 C19" ;;
 		ociregistry/ocifilter/*) s="$s C12 C13 C14" ;;
 		ociregistry/ociunify/*) s="$s C15 C16 C04 C05" ;;
@@ -34,7 +35,7 @@ git -C "$W/tree" apply "$PATCH" || { echo "patch does not apply"; exit 2; }
 mkdir -p "$W/ev" "$W/rp"
 bad=0
 for id in $ids; do
-	out=$(VERIF_REPO="$W/tree" VERIF_EVIDENCE_DIR="$W/ev" VERIF_REPLAY_DIR="$W/rp" VERIF_BUDGET_S=${VERIF_BUDGET_S:-15} "$V/check" "$id" quick 2>&1)
+	out=$(VERIF_REPO="$W/tree" VERIF_EVIDENCE_DIR="$W/ev" VERIF_REPLAY_DIR="$W/rp" VERIF_BUDGET_S=${VERIF_BUDGET_S:-15} "$C/check" "$id" quick 2>&1)
 	rc=$?
 	case $rc in
 	0) echo "$id: quiet" ;;
